@@ -354,7 +354,7 @@ func argsToPatterns(args []string) ([]string, error) {
 				return nil, internal.EnsureFileName(err, filename)
 			}
 		}
-		return parsePatternFile(data), nil
+		patterns = append(patterns, parsePatternFile(data)...)
 	}
 	return patterns, nil
 }
